@@ -210,7 +210,8 @@ class Scenario:
                     self.ref[i] = ('ok', gen.getVerilog(o))
                 except Exception as e:
                     self.ref[i] = ('err', type(e).__name__)
-            if not altered:
+            step = max(1, len(g.objs) // 12)
+            if not altered and (i % step == step - 1 or i == len(g.objs) - 1):
                 s1 = L.snapshot(g)
                 if s0 != s1:
                     altered = True
